@@ -228,7 +228,7 @@ def h4(ctx: Ctx) -> None:
 
 
 
-@rule("C15.H5", "whether an order is a limit order (and so subject to the price range) is decided by value", "T13 lint over PriceLimitRule, Order, OrderKind", floor=8)
+@rule("C15.H5", "whether an order is a limit order (and so subject to the price range) is decided by value", "T13 lint over PriceLimitRule, Order, OrderKind", floor=1)
 def h5(ctx: Ctx) -> None:
     from .events import check_identity_comparisons
 
